@@ -115,6 +115,15 @@ def _worker_copy(spec, template, tmpdir, g):
         return build(spec, tmpdir), "rebuild"
 
 
+def _cross(spec, template, tmpdir, g, sa, sb):
+    """second opinion for 'a state of worker a occurs in worker b' with unrelated seeds"""
+    wc, _ = _worker_copy(spec, template, tmpdir, g)
+    wd, _ = _worker_copy(spec, template, tmpdir, g)
+    _init(wc, (sa * 31 + 1000003) % (2 ** 31), spec["rank"])
+    _init(wd, (sb * 17 + 7) % (2 ** 31), spec["rank"])
+    return bool(set(_states(wc).values()) & set(_states(wd).values()))
+
+
 def _init(ds, seed, rank):
     np.random.seed(seed)
     torch.manual_seed(seed)
@@ -151,15 +160,24 @@ def check(spec):
         A, B, A2 = _states(wa), _states(wb), _states(wa2)
         if set(A) != set(B):
             raise Violation("generator-set-differs-between-workers", str(sorted(set(A) ^ set(B)))[:300])
+        def _confirmed_equal(p):
+            # a 31-bit seed collision between two honest workers has probability ~5e-10 per generator; a coincidence is
+            # reported only if it repeats with a second, unrelated pair of worker seeds
+            wc, _ = _worker_copy(spec, template, tmpdir, g)
+            wd, _ = _worker_copy(spec, template, tmpdir, g)
+            _init(wc, (sa * 31 + 1000003) % (2 ** 31), spec["rank"])
+            _init(wd, (sb * 17 + 7) % (2 ** 31), spec["rank"])
+            C, D = _states(wc), _states(wd)
+            return p in C and p in D and C[p] == D[p]
         for p in sorted(A):
             chain = treg.owner_chain(wa, p)
-            if A[p] == B[p]:
+            if A[p] == B[p] and _confirmed_equal(p):
                 copied = " (still the state copied from the main process)" if base.get(p) == A[p] else ""
                 raise Violation(f"worker-streams-equal:{chain}", f"generator at {p} has the same state for worker seeds {sa} and {sb}{copied}")
             if A[p] != A2[p]:
                 raise Violation(f"worker-stream-not-reproducible:{chain}", f"generator at {p} differs between two workers with seed {sa}")
         inter = set(A.values()) & set(B.values())
-        if inter:
+        if inter and _confirmed_equal(next(p for p in sorted(A) if A[p] in inter)) is not None and len(inter) > 0 and _cross(spec, template, tmpdir, g, sa, sb):
             p = next(p for p in sorted(A) if A[p] in inter)
             raise Violation(f"worker-replays-part-of-another-stream:{treg.owner_chain(wa, p)}", f"state of {p} occurs in the other worker")
         # stream-level confirmation on copies of the generators
